@@ -19,7 +19,7 @@
 (* action's own postcondition; the global clauses (well-formedness C03,    *)
 (* no-poison C12, frame C17, options C14) are evaluated on every event.    *)
 (***************************************************************************)
-EXTENDS PolyArray, Options, TLC
+EXTENDS PolyArray, Options, Monomial, TLC
 
 HasDen(v) == v.kind \in {"poly", "array"}
 MkReg(v) == [v |-> v, d |-> IF HasDen(v) /\ WellFormed(v) THEN Den(v) ELSE <<>>, dg |-> v.digest]
@@ -126,6 +126,178 @@ JReduce(ev, reg) ==
        [] ev.fn = "det" ->
             IF nd < 2 \/ a.shape[nd] # a.shape[nd - 1] THEN "ok" ELSE ExpectDen(ev, "poly", DDet(a))
 
+\* ----------------------------------------------------- C07 comparison operators
+SortedNames(S) == SetToSortSeq(S, LAMBDA x, y : x < y)
+NToInt(x) == BToInt(x.r)
+BoolNum(b) == IF b THEN NOne ELSE NZero
+RegNames(r) == IF r.v.kind = "poly" THEN RangeOf(r.v.names) ELSE {}
+CmpHolds(op, c) == CASE op = "lt" -> c < 0 [] op = "le" -> c <= 0 [] op = "gt" -> c > 0
+                     [] op = "ge" -> c >= 0 [] op = "eq" -> c = 0 [] op = "ne" -> c # 0
+JCompare(ev, reg, opts) ==
+  LET a == reg[ev.args[1]].d  b == reg[ev.args[2]].d
+      dims == SortedNames(DNames(a) \cup DNames(b))
+  IN IF ~BroadcastOK2(a.shape, b.shape) THEN "ok"
+     ELSE LET t == BShape2(a.shape, b.shape)
+              want == [k \in 1..Size(t) |->
+                         BoolNum(CmpHolds(ev.op, ECmp(a.el[BSrc(k, t, a.shape)], b.el[BSrc(k, t, b.shape)],
+                                                     dims, opts.sort_graded, opts.sort_reverse)))]
+          IN IF ev.out # "ret" THEN "raised"
+             ELSE LET r == ev.res[1]
+                  IN IF r.kind # "array" \/ r.dtype # "bool" THEN "type"
+                     ELSE IF r.shape # t THEN "shape"
+                     ELSE IF r.vals # want THEN "value" ELSE "ok"
+JExtreme(ev, reg, opts) ==       \* maximum / minimum
+  LET a == reg[ev.args[1]].d  b == reg[ev.args[2]].d
+      dims == SortedNames(DNames(a) \cup DNames(b))
+      pick(f, g) == LET c == ECmp(f, g, dims, opts.sort_graded, opts.sort_reverse)
+                    IN IF ev.op = "maximum" THEN (IF c >= 0 THEN f ELSE g) ELSE (IF c <= 0 THEN f ELSE g)
+  IN IF ~BroadcastOK2(a.shape, b.shape) THEN "ok" ELSE ExpectDen(ev, "poly", Lift2(pick, a, b))
+
+\* ------------------------------------------------ C19 leading terms and friends
+\* order of elements used by the sort proxy: leading monomial, then leading coefficient
+KeyLess(f, g, dims, graded, reverse) ==
+  LET mf == ELeadMono(f, dims, graded, reverse)  mg == ELeadMono(g, dims, graded, reverse)
+  IN IF mf # mg THEN MLess(mf, mg, dims, graded, reverse)
+     ELSE NCmp(ELeadCoef(f, dims, graded, reverse), ELeadCoef(g, dims, graded, reverse)) < 0
+IntVals(r) == [k \in 1..Len(r.vals) |-> NToInt(r.vals[k])]
+JLead(ev, reg, opts) ==
+  LET v == reg[ev.args[1]].v
+      a == reg[ev.args[1]].d
+      names == IF v.kind = "poly" THEN v.names ELSE <<0>>
+      dims == names
+      nn == Len(names)
+      n == Len(a.el)
+  IN IF ev.out # "ret" THEN "raised"
+     ELSE LET r == ev.res[1] IN
+     CASE ev.fn = "lead_exponent" ->
+            IF r.kind # "array" THEN "type"
+            ELSE IF r.shape # a.shape \o <<nn>> THEN "shape"
+            ELSE IF IntVals(r) = [k \in 1..(n * nn) |->
+                       MExp(ELeadMono(a.el[1 + ((k - 1) \div nn)], dims, ev.graded, ev.reverse),
+                            names[1 + ((k - 1) % nn)])]
+                 THEN "ok" ELSE "value"
+       [] ev.fn = "lead_coefficient" ->
+            IF r.kind # "array" THEN "type"
+            ELSE IF r.shape # a.shape THEN "shape"
+            ELSE IF r.vals = [k \in 1..n |-> ELeadCoef(a.el[k], dims, ev.graded, ev.reverse)]
+                 THEN "ok" ELSE "value"
+       [] ev.fn = "isconstant" ->
+            IF r.kind # "array" \/ r.shape # <<>> THEN "type"
+            ELSE IF r.vals[1] = BoolNum(DConst(a)) THEN "ok" ELSE "value"
+       [] ev.fn = "sortable_proxy" ->
+            IF r.kind # "array" THEN "type"
+            ELSE IF r.shape # a.shape THEN "shape"
+            ELSE LET pr == IntVals(r)
+                 IN IF ~IsPermutation(pr, n) THEN "value_not_permutation"
+                    ELSE IF \A i, j \in 1..n :
+                              KeyLess(a.el[i], a.el[j], dims, ev.graded, ev.reverse) => pr[i] < pr[j]
+                         THEN "ok" ELSE "value"
+       [] ev.fn \in {"argmax", "argmin"} ->
+            IF r.kind # "array" \/ r.shape # <<>> THEN "type"
+            ELSE LET i == NToInt(r.vals[1]) + 1
+                 IN IF i \notin 1..n THEN "value"
+                    ELSE IF \A j \in 1..n :
+                              IF ev.fn = "argmax"
+                              THEN ~KeyLess(a.el[i], a.el[j], dims, opts.sort_graded, opts.sort_reverse)
+                              ELSE ~KeyLess(a.el[j], a.el[i], dims, opts.sort_graded, opts.sort_reverse)
+                         THEN "ok" ELSE "value"
+       [] ev.fn \in {"amax", "amin"} ->
+            IF r.kind # "poly" THEN "type"
+            ELSE IF r.shape # <<>> THEN "shape"
+            ELSE LET f == Den(r).el[1]
+                 IN IF \E i \in 1..n : /\ a.el[i] = f
+                                       /\ \A j \in 1..n :
+                                            IF ev.fn = "amax"
+                                            THEN ~KeyLess(a.el[i], a.el[j], dims, opts.sort_graded, opts.sort_reverse)
+                                            ELSE ~KeyLess(a.el[j], a.el[i], dims, opts.sort_graded, opts.sort_reverse)
+                    THEN "ok" ELSE "value"
+JToNumpy(ev, reg) ==
+  LET a == reg[ev.args[1]].d
+  IN IF ~DConst(a) THEN ExpectRaise(ev, "FeatureNotSupported")
+     ELSE ExpectDen(ev, "array", a)
+JToDict(ev, reg) ==       \* ev.rows / ev.coefs: the dictionary as observed
+  LET v == reg[ev.args[1]].v  a == reg[ev.args[1]].d
+  IN IF ev.out # "ret" THEN "raised"
+     ELSE IF ~Distinct(ev.rows) THEN "value_duplicate_keys"
+     ELSE IF \E r \in 1..Len(ev.rows) : Len(ev.rows[r]) # Len(v.names) \/ Len(ev.coefs[r]) # Len(a.el) THEN "shape"
+     ELSE IF PolyDen([shape |-> a.shape, names |-> v.names, rows |-> ev.rows, coefs |-> ev.coefs]).el = a.el
+          THEN "ok" ELSE "value"
+JDecompose(ev, reg) ==
+  LET a == reg[ev.args[1]].d
+  IN IF ev.out # "ret" THEN "raised"
+     ELSE LET r == ev.res[1] IN
+          IF r.kind # "poly" THEN "type"
+          ELSE IF Len(r.shape) # Len(a.shape) + 1 \/ SubSeq(r.shape, 2, Len(r.shape)) # a.shape THEN "shape"
+          ELSE LET d == Den(r)
+                   m == r.shape[1]
+                   n == Len(a.el)
+               IN IF DSumAxes(d, {0}, FALSE).el # a.el THEN "value_sum"
+                  ELSE IF \A i \in 1..m :
+                            Cardinality(UNION {DOMAIN d.el[(i - 1) * n + k] : k \in 1..n}) <= 1
+                       THEN "ok" ELSE "value_slice"
+JSetDimensions(ev, reg) ==
+  LET v == reg[ev.args[1]].v  a == reg[ev.args[1]].d
+      nn == Len(v.names)
+      keep == IF ev.dims < nn THEN {v.names[j] : j \in 1..ev.dims} ELSE RangeOf(v.names)
+      cut(f) == [m \in {x \in DOMAIN f : DOMAIN x \subseteq keep} |-> f[m]]
+  IN IF ev.out # "ret" THEN "raised"
+     ELSE LET own == ExpectDen(ev, "poly", Lift1(cut, a)) IN
+          IF own # "ok" THEN own
+          ELSE IF Len(ev.res[1].names) # ev.dims THEN "names"
+          ELSE IF ev.dims <= nn /\ ev.res[1].names # SubSeq(v.names, 1, ev.dims) THEN "names"
+          ELSE IF ev.dims > nn /\ ~(RangeOf(v.names) \subseteq RangeOf(ev.res[1].names)) THEN "names"
+          ELSE "ok"
+
+\* ---------------------------------------------------- C18 index utilities
+RowsOf(vals, d) == [i \in 1..(Len(vals) \div d) |-> [j \in 1..d |-> NToInt(vals[(i - 1) * d + j])]]
+LoNorm(q) == IF NormDecidable(q) THEN q ELSE "0"      \* for 0 < p < 1:  L_0 ball <= L_p ball <= L_1 ball
+HiNorm(q) == IF NormDecidable(q) THEN q ELSE "1"
+IndexRowsOK(rows, ev) ==       \* first failing clause for a list of index rows
+  LET lo == GlexIndexSet(ev.start, ev.stop, HiNorm(ev.qlow), LoNorm(ev.qup))
+      hi == GlexIndexSet(ev.start, ev.stop, LoNorm(ev.qlow), HiNorm(ev.qup))
+      got == RangeOf(rows)
+      ordered == IF ev.inverse THEN Reverse(rows) ELSE rows
+  IN IF Cardinality(got) # Len(rows) THEN "value_duplicates"
+     ELSE IF ~(lo \subseteq got) THEN "value_missing"
+     ELSE IF ~(got \subseteq hi) THEN "value_extra"
+     ELSE IF ~StrictlySorted(ordered, ev.graded, ev.reverse) THEN "value_order"
+     ELSE "ok"
+JIndex(ev, reg) ==
+  IF ev.out # "ret" THEN "raised"
+  ELSE LET r == ev.res[1] IN
+  CASE ev.fn = "glexsort" ->
+         LET nr == Len(ev.keys)
+             nc == IF nr = 0 THEN 0 ELSE Len(ev.keys[1])
+             cols == [c \in 1..nc |-> [x \in 1..nr |-> ev.keys[x][c]]]
+         IN IF r.kind # "array" THEN "type"
+            ELSE IF r.shape # <<nc>> THEN "shape"
+            ELSE IF SortsColumns(IntVals(r), cols, ev.graded, ev.reverse) THEN "ok" ELSE "value"
+    [] ev.fn \in {"glexindex", "bindex"} ->
+         IF r.kind # "array" THEN "type"
+         ELSE IF Len(r.shape) # 2 \/ r.shape[2] # Len(ev.stop) THEN "shape"
+         ELSE IndexRowsOK(RowsOf(r.vals, Len(ev.stop)), ev)
+    [] ev.fn = "monomial" ->
+         IF r.kind # "poly" THEN "type"
+         ELSE IF Len(r.shape) # 1 THEN "shape"
+         ELSE LET d == Den(r)
+                  single == \A k \in 1..Len(d.el) : Cardinality(DOMAIN d.el[k]) = 1
+              IN IF ~single THEN "value_not_monomial"
+                 ELSE IF \E k \in 1..Len(d.el) : d.el[k][CHOOSE m \in DOMAIN d.el[k] : TRUE] # NOne THEN "value_coefficient"
+                 ELSE IF Len(r.names) # Len(ev.stop) THEN "names"
+                 ELSE IndexRowsOK([k \in 1..Len(d.el) |->
+                         LET m == CHOOSE mm \in DOMAIN d.el[k] : TRUE
+                         IN [j \in 1..Len(r.names) |-> MExp(m, r.names[j])]], ev)
+    [] ev.fn = "cross_truncate" ->
+         IF r.kind # "array" \/ r.dtype # "bool" THEN "type"
+         ELSE IF r.shape # <<Len(ev.indices)>> THEN "shape"
+         ELSE IF ~NormDecidable(ev.norm) THEN
+              (IF \A i \in 1..Len(ev.indices) :
+                     /\ (InCross(ev.indices[i], ev.bound, "0") => r.vals[i] = NOne)
+                     /\ (r.vals[i] = NOne => InCross(ev.indices[i], ev.bound, "1"))
+               THEN "ok" ELSE "value")
+         ELSE IF r.vals = [i \in 1..Len(ev.indices) |-> BoolNum(InCross(ev.indices[i], ev.bound, ev.norm))]
+              THEN "ok" ELSE "value"
+
 \* -------------------------------------------------------------- C14 options
 OptAct(ev) == ev.act \in {"set_options", "enter", "exit", "exit_exc", "get_mutate", "get_defaults"}
 NextOpts(ev, opts, ctx) ==
@@ -147,7 +319,7 @@ JOption(ev, opts, ctx) ==
     [] ev.act = "get_defaults" -> IF ev.out = "ret" /\ ev.seen = DefaultOptions THEN "ok" ELSE "defaults"
 
 \* ------------------------------------------------------------------ dispatch
-NeedsDen(ev) == ev.act \in {"arith", "unary", "move", "reduce"}
+NeedsDen(ev) == ev.act \in {"arith", "unary", "move", "reduce", "compare", "extreme", "lead", "tonumpy", "todict", "decompose", "set_dimensions"}
 Own(ev, reg, opts, ctx) ==
   CASE ev.act = "new" -> "ok"
     [] \E i \in 1..Len(ev.args) : ev.args[i] \notin 1..Len(reg) -> "machinery_operand"
@@ -156,6 +328,14 @@ Own(ev, reg, opts, ctx) ==
     [] ev.act = "unary" -> JUnary(ev, reg)
     [] ev.act = "move" -> JMove(ev, reg, opts)
     [] ev.act = "reduce" -> JReduce(ev, reg)
+    [] ev.act = "compare" -> JCompare(ev, reg, opts)
+    [] ev.act = "extreme" -> JExtreme(ev, reg, opts)
+    [] ev.act = "lead" -> JLead(ev, reg, opts)
+    [] ev.act = "tonumpy" -> JToNumpy(ev, reg)
+    [] ev.act = "todict" -> JToDict(ev, reg)
+    [] ev.act = "decompose" -> JDecompose(ev, reg)
+    [] ev.act = "set_dimensions" -> JSetDimensions(ev, reg)
+    [] ev.act = "index" -> JIndex(ev, reg)
     [] OptAct(ev) -> JOption(ev, opts, ctx)
     [] OTHER -> "unknown_action"
 
